@@ -258,3 +258,61 @@ func lemmaJSONDate(d Date) (Date, bool) {
 
 	return x, true
 }
+
+// ---- JSON round trips of the address types (C14): UnmarshalJSON(MarshalJSON(a)) into a zero value ----
+
+func lemmaBindAddrJSON(a BindAddr) (BindAddr, bool) {
+	b, err := a.MarshalJSON()
+	if err != nil {
+		return BindAddr{}, false
+	}
+
+	var x BindAddr
+	if err := x.UnmarshalJSON(b); err != nil {
+		return BindAddr{}, false
+	}
+
+	return x, true
+}
+
+func lemmaBroadcastAddrJSON(a BroadcastAddr) (BroadcastAddr, bool) {
+	b, err := a.MarshalJSON()
+	if err != nil {
+		return BroadcastAddr{}, false
+	}
+
+	var x BroadcastAddr
+	if err := x.UnmarshalJSON(b); err != nil {
+		return BroadcastAddr{}, false
+	}
+
+	return x, true
+}
+
+func lemmaListenAddrJSON(a ListenAddr) (ListenAddr, bool) {
+	b, err := a.MarshalJSON()
+	if err != nil {
+		return ListenAddr{}, false
+	}
+
+	var x ListenAddr
+	if err := x.UnmarshalJSON(b); err != nil {
+		return ListenAddr{}, false
+	}
+
+	return x, true
+}
+
+func lemmaControllerAddrJSON(a ControllerAddr) (ControllerAddr, bool) {
+	b, err := a.MarshalJSON()
+	if err != nil {
+		return ControllerAddr{}, false
+	}
+
+	var x ControllerAddr
+	if err := x.UnmarshalJSON(b); err != nil {
+		return ControllerAddr{}, false
+	}
+
+	return x, true
+}
